@@ -128,20 +128,20 @@ def exec_job(job):
 
 
 # ------------------------------------------------------------------ spec -> code
-GEN_EXHAUSTIVE = [  # (tla, cfg, cap in quick tier)
-    ("MC_Rand.tla", "Gen_Rand_dir3.cfg", None),
-    ("MC_Rand.tla", "Gen_Rand_und4.cfg", None),
-    ("MC_RingLattice.tla", "Gen_RingLattice_n3.cfg", None),
-    ("MC_DegreesFixed.tla", "Gen_DegreesFixed_n3k4.cfg", 1500),
+GEN_EXHAUSTIVE = [  # (tla, quick cfg, thorough cfg): every behaviour of the machine
+    ("MC_Rand.tla", "Gen_Rand_dir3.cfg", "Gen_Rand_dir3.cfg"),
+    ("MC_Rand.tla", "Gen_Rand_und4.cfg", "Gen_Rand_und4.cfg"),
+    ("MC_RingLattice.tla", "Gen_RingLattice_n3.cfg", "Gen_RingLattice_n3.cfg"),
+    ("MC_DegreesFixed.tla", "Gen_DegreesFixed_n3k3.cfg", "Gen_DegreesFixed_n3k4.cfg"),
 ]
 GEN_SIMULATE = [  # (tla, cfg, behaviours per worker quick, thorough, thorough only)
-    ("MC_Rand.tla", "Gen_Rand_dir5.cfg", 60, 600, False),
-    ("MC_Rand.tla", "Gen_Rand_und6.cfg", 60, 600, False),
-    ("MC_RingLattice.tla", "Gen_RingLattice_n4.cfg", 80, 600, False),
-    ("MC_RingLattice.tla", "Gen_RingLattice_n5.cfg", 80, 600, False),
-    ("MC_RingLattice.tla", "Gen_RingLattice_n6.cfg", 80, 600, False),
+    ("MC_Rand.tla", "Gen_Rand_dir5.cfg", 50, 600, False),
+    ("MC_Rand.tla", "Gen_Rand_und6.cfg", 50, 600, False),
+    ("MC_RingLattice.tla", "Gen_RingLattice_n4.cfg", 60, 600, False),
+    ("MC_RingLattice.tla", "Gen_RingLattice_n5.cfg", 60, 600, False),
+    ("MC_RingLattice.tla", "Gen_RingLattice_n6.cfg", 40, 600, False),
     ("MC_RingLattice.tla", "Gen_RingLattice_n7.cfg", 0, 400, True),
-    ("MC_DegreesFixed.tla", "Gen_DegreesFixed_n3.cfg", 60, 500, False),
+    ("MC_DegreesFixed.tla", "Gen_DegreesFixed_n3.cfg", 100, 800, False),
     ("MC_DegreesFixed.tla", "Gen_DegreesFixed_n4.cfg", 150, 1500, False),
     ("MC_DegreesFixed.tla", "Gen_DegreesFixed_n5.cfg", 40, 1000, False),
 ]
@@ -163,9 +163,9 @@ def item_to_job(it):
 
 
 def behaviour_jobs(ctx):
-    rng = random.Random(ctx.seed * 31 + 5)
     thunks = []
-    for tla, cfg, cap in GEN_EXHAUSTIVE:
+    for tla, cq, ct in GEN_EXHAUSTIVE:
+        cfg = cq if ctx.quick else ct
         thunks.append(lambda tla=tla, cfg=cfg: ctx.gen(tla, cfg, tag="all_" + cfg[4:-4], workers=4, timeout=900))
     sims = [g for g in GEN_SIMULATE if not (ctx.quick and g[4])]
     for tla, cfg, nq, nt, _ in sims:
@@ -175,11 +175,7 @@ def behaviour_jobs(ctx):
             extra=["-simulate", "num=%d" % num, "-depth", "400", "-seed", str(ctx.seed + 11)]))
     results = ctx.parallel(thunks, width=4)
     jobs, seen = [], set()
-    for idx, items in enumerate(results):
-        if idx < len(GEN_EXHAUSTIVE):
-            cap = GEN_EXHAUSTIVE[idx][2]
-            if ctx.quick and cap and len(items) > cap:
-                items = rng.sample(items, cap)
+    for items in results:
         for it in items:
             key = repr(sorted(it.items()))
             if key in seen:
@@ -318,7 +314,7 @@ def run(ctx):
     ctx.nontrivial = len(nt)
     ctx.exhaustive = True
     ctx.rule = ("spec->code: every behaviour of RandImpl (dir N=3, und N=4: every K and every K-prefix of every "
-                "permutation), RingLatticeImpl (N=3) and DegreesFixedImpl (N=3, k<=4; sampled in the quick tier) plus "
+                "permutation), RingLatticeImpl (N=3) and DegreesFixedImpl (N=3, k<=3 quick / k<=4 thorough) plus "
                 "TLC -simulate behaviours for N up to 6/7 (ring), 5 (degrees), replayed through a scripted RandomState; "
                 "code->spec: seeded runs of all seven generators (every feasible K for small n, random beyond; "
                 "N in {4,8,16} for the hierarchical ones; degree pairs of random digraphs n in 5..10); "
